@@ -21,7 +21,8 @@ Definition single_ok (w : world) (subs : list submsg) : Prop :=
     pm_buffer (w_pm w) = Some b /\ sb_offer_half b = (od, h) /\ sb_expected_ask_asset b = (ask, sc_return sim) /\
     query_simulation (w_pm w) (od, h) ask pid = Ok sim /\
     subs = [{| sm_msg := MWasm PM (WPm (PmSwap ask None ss None pid)) [(od, h)]; sm_id := 1; sm_reply := RSuccess |}].
-Definition pm_list_ok (w : world) (subs : list submsg) : Prop := Forall plain_ok subs \/ single_ok w subs.
+Definition pm_list_ok (w : world) (subs : list submsg) : Prop :=
+  (Forall plain_ok subs /\ pm_buffer (w_pm w) = None) \/ single_ok w subs.
 
 Lemma PM_neq : String.eqb PM EM = false /\ String.eqb PM FC = false /\ String.eqb PM FM = false.
 Proof. repeat split; reflexivity. Qed.
@@ -155,7 +156,7 @@ Qed.
 Lemma handle_pm w sender funds m w2 subs :
   fees_small w -> small_call (plain (MWasm PM m funds)) -> handle w PM sender funds m = Ok (w2, subs) ->
   exists pm s', m = WPm pm /\ w2 = set_pm w s' /\ pm_execute w sender funds pm = Ok (s', subs) /\
-                pm_accounted w s' funds subs /\ fees_small w2 /\ pm_list_ok w2 subs.
+                pm_accounted w s' funds subs /\ fees_small w2 /\ (pm_buffer (w_pm w) = None -> pm_list_ok w2 subs).
 Proof.
   intros Hfs Hsm H. apply handle_ok_typed in H. destruct H as (H & Hfunds & Hmsg).
   unfold handle_typed in H. cbn [String.eqb EM FC PM FM Ascii.eqb Bool.eqb] in H.
@@ -165,12 +166,19 @@ Proof.
   destruct (pm_execute_accounted _ _ _ _ _ _ Hfs Hfunds Hsm Hx) as [A B].
   split; [exact A|]. split.
   { destruct Hfs as (F1 & F2 & _). unfold fees_small. cbn [w_tf_fee set_pm w_pm]. split; [exact F1 | split; [exact F2 | exact B]]. }
-  destruct (pm_execute_list _ _ _ _ _ _ Hx) as [L|(ls & ss & r & pid & u & l & deposit & -> & Hagg)]; [left; exact L|].
-  right. cbn [pm_execute] in Hx.
-  destruct (provide_single_spec _ _ _ _ _ _ _ _ _ _ _ _ Hagg Hx) as (p & askc & sim & _ & _ & _ & _ & _ & _ & Hsim & -> & ->).
-  eexists _, (denom_of deposit), (amount_of deposit / 2), (denom_of askc), sim, pid, ss.
-  cbn [w_pm set_pm pm_buffer pm_with_buffer sb_offer_half sb_expected_ask_asset].
-  split; [reflexivity|]. split; [reflexivity|]. split; [reflexivity|]. split; [exact Hsim | reflexivity].
+  intros Hbuf.
+  destruct (pm_execute_list _ _ _ _ _ _ Hx) as [L|(ls & ss & r & pid & u & l & deposit & -> & Hagg)].
+  - left. split; [exact L|]. cbn [w_pm set_pm].
+    destruct (pm_execute_buffer_frame _ _ _ _ _ _ Hx) as [Hf|(ls & ss & r & pid & u & l & deposit & -> & Hagg)]; [rewrite Hf; exact Hbuf|].
+    (* a single-asset provision never answers with fire-and-forget messages only *)
+    cbn [pm_execute] in Hx.
+    destruct (provide_single_spec _ _ _ _ _ _ _ _ _ _ _ _ Hagg Hx) as (p & askc & sim & _ & _ & _ & _ & _ & _ & _ & _ & ->).
+    inversion L as [|x xs [Hrn _] _]. cbn in Hrn. discriminate.
+  - right. cbn [pm_execute] in Hx.
+    destruct (provide_single_spec _ _ _ _ _ _ _ _ _ _ _ _ Hagg Hx) as (p & askc & sim & _ & _ & _ & _ & _ & _ & Hsim & -> & ->).
+    eexists _, (denom_of deposit), (amount_of deposit / 2), (denom_of askc), sim, pid, ss.
+    cbn [w_pm set_pm pm_buffer pm_with_buffer sb_offer_half sb_expected_ask_asset].
+    split; [reflexivity|]. split; [reflexivity|]. split; [reflexivity|]. split; [exact Hsim | reflexivity].
 Qed.
 
 Lemma is_send_small s : is_send s -> small_call s.
@@ -235,7 +243,7 @@ Qed.
 
 Lemma list_ok_small w subs : pm_list_ok w subs -> Forall small_call subs.
 Proof.
-  intros [H|(b & od & h & ask & sim & pid & ss & _ & _ & _ & _ & ->)].
+  intros [[H _]|(b & od & h & ask & sim & pid & ss & _ & _ & _ & _ & ->)].
   - eapply Forall_impl; [|exact H]. intros a [_ Ha]. exact Ha.
   - constructor; [exact I | constructor].
 Qed.
@@ -245,26 +253,46 @@ Definition P (f : nat) : Prop := forall w c subs w' fl,
   process f w c subs = (Ok w', fl) ->
   pinv w -> Forall small_call subs ->
   (String.eqb c PM = true -> pm_list_ok w subs) ->
-  pinv w' /\ w_tf_fee w' = w_tf_fee w /\
+  (String.eqb c PM = false -> pm_buffer (w_pm w) = None) ->
+  pinv w' /\ w_tf_fee w' = w_tf_fee w /\ pm_buffer (w_pm w') = None /\
   forall d, slackP w d - (if String.eqb c PM then outP (w_tf_fee w) subs d else 0) <= slackP w' d.
+
+(* bank messages of the pool manager, run in sequence *)
+Lemma exec_leaves_pm subs : forall w w1 fl,
+  forallb plain_leaf subs = true -> exec_leaves w PM subs = (Ok w1, fl) ->
+  same_contracts w w1 /\ forall d, bal (w_bank w) PM d - outP (w_tf_fee w) subs d <= bal (w_bank w1) PM d.
+Proof.
+  induction subs as [|s rest IH]; intros w w1 fl H E; cbn [exec_leaves] in E.
+  - inversion E; subst. split; [apply same_contracts_refl|]. intros d. cbn [outP]. lia.
+  - cbn [forallb] in H. apply andb_true_iff in H. destruct H as [Hs Hr].
+    unfold plain_leaf in Hs. apply andb_true_iff in Hs. destruct Hs as [Hl _].
+    destruct (exec_leaf w PM (sm_msg s)) as [[w2|e] fl2] eqn:E2; [|discriminate].
+    destruct (IH _ _ _ Hr E) as [Hs2 Hb2].
+    destruct (leaf_pm w s w2 fl2 "" Hl E2) as [Hs1 _].
+    split; [eapply same_contracts_trans; eauto|].
+    intros d. destruct (leaf_pm w s w2 fl2 d Hl E2) as [_ Hb1]. specialize (Hb2 d).
+    destruct Hs1 as (_ & Htf & _). rewrite Htf in Hb2. cbn [outP]. lia.
+Qed.
 
 (* one message, executed as a fire-and-forget message *)
 Lemma exec_sub_step f : P f -> forall w c s w1 fl1,
-  exec_sub f w c s = (Ok w1, fl1) -> pinv w -> small_call s ->
-  pinv w1 /\ w_tf_fee w1 = w_tf_fee w /\
+  exec_sub f w c s = (Ok w1, fl1) -> pinv w -> small_call s -> pm_buffer (w_pm w) = None ->
+  pinv w1 /\ w_tf_fee w1 = w_tf_fee w /\ pm_buffer (w_pm w1) = None /\
   forall d, slackP w d - (if String.eqb c PM then outP1 (w_tf_fee w) d (plain (sm_msg s)) else 0) <= slackP w1 d.
 Proof.
-  intros IH w c s w1 fl1 E Hinv Hsm. unfold exec_sub in E.
+  intros IH w c s w1 fl1 E Hinv Hsm Hbuf. unfold exec_sub in E.
   destruct (sm_msg s) as [to a|a|sd|cn to|cn|target wm funds] eqn:Em.
   1-5: (destruct (String.eqb c PM) eqn:Ec;
         [apply String.eqb_eq in Ec; subst c;
          match type of E with exec_leaf _ _ ?m = _ =>
            pose proof (fun d => leaf_pm w (plain m) w1 fl1 d eq_refl E) as L end;
          destruct (L "") as [Hs _]; split; [eapply pinv_same; eauto|]; split; [apply Hs|];
+         split; [destruct Hs as (_ & _ & _ & _ & _ & Hp & _); rewrite Hp; exact Hbuf|];
          intros d; destruct (L d) as [_ Hb]; rewrite (slackP_same _ _ d Hs); unfold slackP; cbn [sm_msg plain] in *; lia
         |match type of E with exec_leaf _ _ ?m = _ =>
            pose proof (fun d => leaf_not_pm w c m w1 fl1 d Ec eq_refl E) as L end;
          destruct (L "") as [Hs _]; split; [eapply pinv_same; eauto|]; split; [apply Hs|];
+         split; [destruct Hs as (_ & _ & _ & _ & _ & Hp & _); rewrite Hp; exact Hbuf|];
          intros d; destruct (L d) as [_ Hb]; rewrite (slackP_same _ _ d Hs); unfold slackP; lia]).
   destruct (match funds with [] => (Ok w, w_fault w) | _ => bank_call w (fun b => bank_send b c target funds) end)
     as [[wa|ea] fla] eqn:Eb; [|discriminate].
@@ -272,13 +300,16 @@ Proof.
   destruct (funds_transfer_pm _ _ _ _ _ _ "" Eb) as (Hsa & _ & _).
   pose proof (pinv_same _ _ Hsa Hinv) as Hinva.
   destruct Hsa as (_ & Htfa & _ & _ & _ & Hpma & Hfma).
+  assert (Hbufa : pm_buffer (w_pm wa) = None) by (rewrite Hpma; exact Hbuf).
   destruct (String.eqb target PM) eqn:Et.
   - apply String.eqb_eq in Et. subst target.
     assert (Hsm' : small_call (plain (MWasm PM wm funds))) by (unfold small_call in *; rewrite Em in Hsm; exact Hsm).
     destruct (handle_pm _ _ _ _ _ _ (proj1 Hinva) Hsm' Eh) as (pm & s' & -> & -> & _ & Hacc & Hfs2 & Hlist).
+    specialize (Hlist Hbufa).
     assert (Hinv2 : pinv (set_pm wa s')) by (split; [exact Hfs2 | exact (proj2 Hinva)]).
-    destruct (IH _ _ _ _ _ E Hinv2 (list_ok_small _ _ Hlist) (fun _ => Hlist)) as (Hinv1 & Htf1 & Hsl).
-    split; [exact Hinv1|]. split; [rewrite Htf1; exact Htfa|].
+    assert (Hnb : String.eqb PM PM = false -> pm_buffer (w_pm (set_pm wa s')) = None) by (intros C; rewrite String.eqb_refl in C; discriminate).
+    destruct (IH _ _ _ _ _ E Hinv2 (list_ok_small _ _ Hlist) (fun _ => Hlist) Hnb) as (Hinv1 & Htf1 & Hb1 & Hsl).
+    split; [exact Hinv1|]. split; [rewrite Htf1; exact Htfa|]. split; [exact Hb1|].
     intros d. specialize (Hsl d). rewrite String.eqb_refl in Hsl. specialize (Hacc d).
     destruct (funds_transfer_pm _ _ _ _ _ _ d Eb) as (_ & Hbal & Hcn).
     rewrite String.eqb_refl in Hbal.
@@ -289,8 +320,9 @@ Proof.
     assert (Hinv2 : pinv w2).
     { split; [|exact Hfm2]. destruct Hinva as [(F1 & F2 & F3) _]. unfold fees_small. rewrite Htf2, Hpm2. split; [exact F1 | split; [exact F2 | exact F3]]. }
     assert (Hnl : String.eqb target PM = true -> pm_list_ok w2 subs2) by (intros C; rewrite Et in C; discriminate).
-    destruct (IH _ _ _ _ _ E Hinv2 Hsm2 Hnl) as (Hinv1 & Htf1 & Hsl).
-    split; [exact Hinv1|]. split; [rewrite Htf1, Htf2; exact Htfa|].
+    assert (Hnb : String.eqb target PM = false -> pm_buffer (w_pm w2) = None) by (intros _; rewrite Hpm2; exact Hbufa).
+    destruct (IH _ _ _ _ _ E Hinv2 Hsm2 Hnl Hnb) as (Hinv1 & Htf1 & Hb1 & Hsl).
+    split; [exact Hinv1|]. split; [rewrite Htf1, Htf2; exact Htfa|]. split; [exact Hb1|].
     intros d. specialize (Hsl d). rewrite Et in Hsl.
     destruct (funds_transfer_pm _ _ _ _ _ _ d Eb) as (_ & Hbal & Hcn).
     assert (Htp : String.eqb PM target = false) by (rewrite String.eqb_sym; exact Et). rewrite Htp in Hbal.
@@ -305,114 +337,162 @@ Proof. intros H. unfold outP1. cbn [plain sm_msg sm_reply]. rewrite H. reflexivi
 Lemma one_coin_single od h offer : one_coin [(od, h)] = Ok offer -> offer = (od, h).
 Proof. unfold one_coin. cbn. destruct (h =? 0); intros H; inversion H; reflexivity. Qed.
 
+(* ---------- the swap -> reply -> deposit chain of a single-asset provision, step by step ---------- *)
+Definition single_elem (od : string) (h : Z) (ask pid : string) (ss : option Z) : submsg :=
+  {| sm_msg := MWasm PM (WPm (PmSwap ask None ss None pid)) [(od, h)]; sm_id := 1; sm_reply := RSuccess |}.
+Definition second_leg (b : ss_buffer) : submsg :=
+  plain (MWasm PM (WPm (PmProvide (ld_liq_slip (sb_data b)) (ld_swap_slip (sb_data b)) (Some (sb_receiver b))
+                                  (ld_pool (sb_data b)) (ld_unlock (sb_data b)) (ld_lock_id (sb_data b))))
+               [sb_offer_half b; sb_expected_ask_asset b]).
+
+Lemma single_chain f w w' fl b od h ask sim pid ss :
+  pm_buffer (w_pm w) = Some b -> sb_offer_half b = (od, h) -> sb_expected_ask_asset b = (ask, sc_return sim) ->
+  query_simulation (w_pm w) (od, h) ask pid = Ok sim ->
+  process (S f) w PM [single_elem od h ask pid ss] = (Ok w', fl) ->
+  exists wa fla s1 msgs1 w1 fl1 fl3,
+    bank_call w (fun b0 => bank_send b0 PM PM [(od, h)]) = (Ok wa, fla) /\
+    swap wa PM [(od, h)] ask None ss None pid = Ok (s1, msgs1) /\
+    perform_swap (w_pm w) (od, h) ask pid None ss = Ok (s1, sim) /\
+    forallb plain_leaf msgs1 = true /\
+    process f (set_pm wa s1) PM msgs1 = (Ok w1, fl1) /\ w_pm w1 = s1 /\ pm_buffer s1 = Some b /\
+    process f (set_pm w1 (pm_with_buffer s1 None)) PM [second_leg b] = (Ok w', fl3).
+Proof.
+  intros Hb Hoh Hea Hsim H. rewrite process_cons in H.
+  unfold exec_sub, single_elem in H. cbn [sm_msg sm_reply sm_id wants_success] in H.
+  destruct (bank_call w (fun b0 => bank_send b0 PM PM [(od, h)])) as [[wa|ea] fla] eqn:Eb; [|discriminate].
+  pose proof (bank_call_same _ _ _ _ Eb) as (_ & Htfa & _ & _ & _ & Hpma & Hfma).
+  destruct (handle wa PM PM [(od, h)] (WPm (PmSwap ask None ss None pid))) as [[w2 subs2]|eh] eqn:Eh; [|discriminate].
+  apply handle_ok_typed in Eh. destruct Eh as (Eh & _ & _).
+  unfold handle_typed in Eh. cbn [String.eqb EM FC PM FM Ascii.eqb Bool.eqb] in Eh.
+  apply bind_ok in Eh. destruct Eh as [[s1 msgs1] [Hx Eh]]. inversion Eh; subst w2 subs2; clear Eh. cbn [pm_execute] in Hx.
+  destruct (accounted_swap_self _ _ _ _ _ _ _ Hx) as (offer & sc & Hone & Hps & _ & Hleaf & _).
+  apply one_coin_single in Hone. subst offer.
+  assert (Hsc : sim = sc) by (eapply simulation_eq_perform_swap; [exact Hps | rewrite Hpma; exact Hsim]). subst sc.
+  destruct (process f (set_pm wa s1) PM msgs1) as [[w1|e1] fl1] eqn:E; [|discriminate].
+  assert (Hpm1 : w_pm w1 = s1).
+  { destruct f as [|f']; [cbn in E; discriminate|]. rewrite (process_leaves f' _ PM msgs1 Hleaf) in E.
+    apply exec_leaves_same in E; [|exact Hleaf]. destruct E as (_ & _ & _ & _ & _ & Hp & _). exact Hp. }
+  assert (Hb1 : pm_buffer s1 = Some b).
+  { pose proof Hps as Hps'. apply perform_swap_spec in Hps'.
+    destruct Hps' as (p & oi & ai & oc & ac & odd & add & _ & _ & _ & _ & _ & _ & Hs').
+    rewrite Hs'. cbn [pm_buffer pm_save_pool pm_with_pools]. rewrite Hpma. exact Hb. }
+  destruct (handle_reply w1 PM 1) as [[w2' rsubs]|er] eqn:Er; [|discriminate].
+  destruct (reply_pm _ _ _ _ Er) as (b' & Hb' & -> & ->).
+  assert (b' = b) as -> by (rewrite Hpm1, Hb1 in Hb'; congruence).
+  rewrite Hpm1 in H.
+  fold (second_leg b) in H.
+  destruct (process f (set_pm w1 (pm_with_buffer s1 None)) PM [second_leg b]) as [[w3|e3] fl3] eqn:E3; [|discriminate].
+  destruct f as [|f']; [cbn in E; discriminate|]. rewrite process_nil in H. inversion H; subst w3 fl; clear H.
+  exists wa, fla, s1, msgs1, w1, fl1, fl3.
+  rewrite <- Hpma. repeat (split; [first [reflexivity | assumption]|]). exact E3.
+Qed.
+
 Theorem process_pool : forall f, P f.
 Proof.
-  induction f as [|f IHf]; intros w c subs w' fl H Hinv Hsmall Hlist; [cbn in H; discriminate|].
-  revert w H Hinv Hsmall Hlist. induction subs as [|s rest IHs]; intros w H Hinv Hsmall Hlist.
+  induction f as [|f IHf]; intros w c subs w' fl H Hinv Hsmall Hlist Hnb; [cbn in H; discriminate|].
+  revert w H Hinv Hsmall Hlist Hnb. induction subs as [|s rest IHs]; intros w H Hinv Hsmall Hlist Hnb.
   - rewrite process_nil in H. inversion H; subst. split; [exact Hinv|]. split; [reflexivity|].
+    split.
+    { destruct (String.eqb c PM) eqn:Ec; [|apply Hnb; reflexivity].
+      destruct (Hlist eq_refl) as [[_ Hb]|(b & od & h & ask & sim & pid & ss & _ & _ & _ & _ & Heq)]; [exact Hb | discriminate]. }
     intros d. destruct (String.eqb c PM); cbn [outP]; lia.
-  - rewrite process_cons in H. inversion Hsmall as [|x xs Hs1 Hsr]; subst.
-    destruct (String.eqb c PM) eqn:Ec.
-    + apply String.eqb_eq in Ec. subst c. destruct (Hlist eq_refl) as [Hpl | Hsingle].
+  - destruct (String.eqb c PM) eqn:Ec.
+    + apply String.eqb_eq in Ec. subst c. destruct (Hlist eq_refl) as [[Hpl Hbuf] | Hsingle].
       * (* fire-and-forget messages *)
+        rewrite process_cons in H. inversion Hsmall as [|x xs Hs1 Hsr]; subst.
         inversion Hpl as [|x xs [Hrn _] Hpl']; subst.
         destruct (exec_sub f w PM s) as [[w1|e] fl1] eqn:E.
-        -- destruct (exec_sub_step f IHf _ _ _ _ _ E Hinv Hs1) as (Hinv1 & Htf1 & Hsl1).
+        -- destruct (exec_sub_step f IHf _ _ _ _ _ E Hinv Hs1 Hbuf) as (Hinv1 & Htf1 & Hb1 & Hsl1).
            rewrite Hrn in H. cbn [wants_success] in H.
-           destruct (IHs w1 H Hinv1 Hsr (fun _ => or_introl Hpl')) as (Hinv' & Htf' & Hsl').
-           split; [exact Hinv'|]. split; [rewrite Htf'; exact Htf1|].
-           intros d. specialize (Hsl1 d). specialize (Hsl' d). try rewrite String.eqb_refl in Hsl1; try rewrite String.eqb_refl in Hsl'; cbv iota in Hsl1, Hsl'.
+           assert (Hnb1 : true = false -> pm_buffer (w_pm w1) = None) by (intros C; discriminate).
+           destruct (IHs w1 H Hinv1 Hsr (fun _ => or_introl (conj Hpl' Hb1)) Hnb1) as (Hinv' & Htf' & Hb' & Hsl').
+           split; [exact Hinv'|]. split; [rewrite Htf'; exact Htf1|]. split; [exact Hb'|].
+           intros d. specialize (Hsl1 d). specialize (Hsl' d).
+           try rewrite String.eqb_refl in Hsl1; try rewrite String.eqb_refl in Hsl'; cbv iota in Hsl1, Hsl'.
            cbn [outP]. rewrite (outP1_plain _ _ _ Hrn). rewrite Htf1 in Hsl'. lia.
         -- rewrite Hrn in H. cbn [wants_error] in H. discriminate.
       * (* the swap leg of a single-asset provision, its reply, and the deposit the reply sends *)
         destruct Hsingle as (b & od & h & ask & sim & pid & ss & Hb & Hoh & Hea & Hsim & Heq).
         inversion Heq; subst s rest; clear Heq.
-        unfold exec_sub in H. cbn [sm_msg sm_reply sm_id wants_success] in H.
-        destruct (bank_call w (fun b0 => bank_send b0 PM PM [(od, h)])) as [[wa|ea] fla] eqn:Eb; [|discriminate].
+        destruct (single_chain _ _ _ _ _ _ _ _ _ _ _ Hb Hoh Hea Hsim H)
+          as (wa & fla & s1 & msgs1 & w1 & fl1 & fl3 & Eb & Hx & Hps & Hleaf & E & Hpm1 & Hb1 & E3).
         pose proof (fun d => funds_transfer_pm w PM PM [(od, h)] wa fla d Eb) as Htr.
         destruct (Htr "") as (Hsa & _ & _).
         pose proof (pinv_same _ _ Hsa Hinv) as Hinva.
         destruct Hsa as (_ & Htfa & _ & _ & _ & Hpma & Hfma).
-        destruct (handle wa PM PM [(od, h)] (WPm (PmSwap ask None ss None pid))) as [[w2 subs2]|eh] eqn:Eh; [|discriminate].
-        destruct (handle_pm wa PM [(od, h)] (WPm (PmSwap ask None ss None pid)) _ _ (proj1 Hinva) I Eh) as (pm & s' & Epm & -> & Hx & _ & Hfs2 & _).
-        inversion Epm; subst pm; clear Epm. cbn [pm_execute] in Hx.
-        destruct (accounted_swap_self _ _ _ _ _ _ _ Hx) as (offer & sc & Hone & Hps & Hplain & Hleaf & Hacc).
+        destruct (accounted_swap_self _ _ _ _ _ _ _ Hx) as (offer & sc & Hone & Hps' & _ & _ & Hacc).
         apply one_coin_single in Hone. subst offer.
-        assert (Hinv2 : pinv (set_pm wa s')) by (split; [exact Hfs2 | exact (proj2 Hinva)]).
-        destruct (process f (set_pm wa s') PM subs2) as [[w1|e1] fl1] eqn:E; [|discriminate].
-        assert (Hl2 : pm_list_ok (set_pm wa s') subs2) by (left; exact Hplain).
-        destruct (IHf _ _ _ _ _ E Hinv2 (list_ok_small _ _ Hl2) (fun _ => Hl2)) as (Hinv1 & Htf1 & Hsl1).
-        (* the swap's own messages are bank messages: the pool manager's state is the swap's result *)
-        assert (Hpm1 : w_pm w1 = s').
-        { destruct f as [|f']; [cbn in E; discriminate|]. rewrite (process_leaves f' _ PM subs2 Hleaf) in E.
-          apply exec_leaves_same in E; [|exact Hleaf]. destruct E as (_ & _ & _ & _ & _ & Hp & _). exact Hp. }
-        destruct (handle_reply w1 PM 1) as [[w2' rsubs]|er] eqn:Er; [|discriminate].
-        destruct (reply_pm _ _ _ _ Er) as (b' & Hb' & -> & ->).
-        assert (b' = b) as ->.
-        { rewrite Hpm1 in Hb'. apply perform_swap_spec in Hps.
-          destruct Hps as (p & oi & ai & oc & ac & odd & add & _ & _ & _ & _ & _ & _ & Hs').
-          rewrite Hs' in Hb'. cbn [pm_buffer pm_save_pool pm_with_pools] in Hb'. rewrite Hpma, Hb in Hb'. congruence. }
-        rewrite Hoh, Hea in H.
-        set (w2' := set_pm w1 (pm_with_buffer (w_pm w1) None)) in *.
-        match type of H with context [process f w2' PM ?l] => set (rsubs := l) in * end.
-        destruct (process f w2' PM rsubs) as [[w3|e3] fl3] eqn:E3; [|discriminate].
-        assert (Hinv2' : pinv w2').
-        { destruct Hinv1 as [(F1 & F2 & F3) F4]. split; [|exact F4]. unfold fees_small, w2'. cbn [w_tf_fee set_pm w_pm pm_with_buffer pm_cfg].
-          split; [exact F1 | split; [exact F2 | exact F3]]. }
-        assert (Hl3 : pm_list_ok w2' rsubs) by (left; subst rsubs; constructor; [split; [reflexivity | exact I] | constructor]).
-        destruct (IHf _ _ _ _ _ E3 Hinv2' (list_ok_small _ _ Hl3) (fun _ => Hl3)) as (Hinv3 & Htf3 & Hsl3).
-        destruct f as [|f']; [cbn in E; discriminate|].
-        inversion H; subst w3 fl; clear H.
-        split; [exact Hinv3|]. split; [rewrite Htf3; unfold w2'; cbn [w_tf_fee set_pm]; rewrite Htf1; cbn [w_tf_fee set_pm]; exact Htfa|].
-        intros d. specialize (Hsl1 d). specialize (Hsl3 d). specialize (Hacc d). try rewrite String.eqb_refl in Hsl1; try rewrite String.eqb_refl in Hsl3; cbv iota in Hsl1, Hsl3.
+        assert (sc = sim) as -> by (rewrite Hpma in Hps'; congruence).
+        (* the swap's own bank messages *)
+        assert (Hw1 : same_contracts (set_pm wa s1) w1 /\ forall d, bal (w_bank wa) PM d - outP (w_tf_fee wa) msgs1 d <= bal (w_bank w1) PM d).
+        { destruct f as [|f']; [cbn in E; discriminate|]. rewrite (process_leaves f' _ PM msgs1 Hleaf) in E.
+          apply (exec_leaves_pm msgs1 _ _ _ Hleaf E). }
+        destruct Hw1 as [Hs1 Hbal1].
+        assert (Hinv2' : pinv (set_pm w1 (pm_with_buffer s1 None))).
+        { destruct Hinva as [(F1 & F2 & F3) F4]. destruct Hs1 as (_ & Ht1 & _ & _ & _ & _ & Hf1).
+          (* creation fee: a swap does not touch the configuration *)
+          pose proof Hps as Hps2. apply perform_swap_spec in Hps2.
+          destruct Hps2 as (p & oi & ai & oc & ac & odd & add & _ & _ & _ & _ & _ & _ & Hs').
+          split; [|cbn [w_fm set_pm]; rewrite Hf1; cbn [w_fm set_pm]; exact F4]. unfold fees_small. cbn [w_tf_fee set_pm w_pm pm_with_buffer pm_cfg]. rewrite Ht1. cbn [w_tf_fee set_pm].
+          split; [exact F1 | split; [exact F2|]]. rewrite Hs'. cbn [pm_cfg pm_save_pool pm_with_pools]. rewrite <- Hpma. exact F3. }
+        set (w2' := set_pm w1 (pm_with_buffer s1 None)) in *.
+        assert (Hl3 : pm_list_ok w2' [second_leg b]).
+        { left. split; [constructor; [split; [reflexivity | exact I] | constructor] | reflexivity]. }
+        assert (Hnb3 : String.eqb PM PM = false -> pm_buffer (w_pm w2') = None) by (intros _; reflexivity).
+        destruct (IHf _ _ _ _ _ E3 Hinv2' (list_ok_small _ _ Hl3) (fun _ => Hl3) Hnb3) as (Hinv3 & Htf3 & Hb3 & Hsl3).
+        split; [exact Hinv3|].
+        split. { rewrite Htf3. unfold w2'. cbn [w_tf_fee set_pm]. destruct Hs1 as (_ & Ht1 & _). rewrite Ht1. cbn [w_tf_fee set_pm]. exact Htfa. }
+        split; [exact Hb3|].
+        intros d. specialize (Hsl3 d). specialize (Hacc d). specialize (Hbal1 d).
+        try rewrite String.eqb_refl in Hsl3; cbv iota in Hsl3.
         destruct (Htr d) as (_ & Hbal & Hcn). rewrite String.eqb_refl in Hbal.
-        (* the amount bought is the amount the buffer promised *)
-        assert (Hsc : sim = sc).
-        { eapply simulation_eq_perform_swap; [exact Hps|]. rewrite Hpma. exact Hsim. }
-        subst sim.
-        assert (Hres2' : res (w_pm w2') d = res (w_pm w1) d) by reflexivity.
-        unfold slackP in *. rewrite Hres2' in Hsl3. rewrite Hpm1 in Hsl3.
-        assert (Hb2' : bal (w_bank w2') PM d = bal (w_bank w1) PM d) by reflexivity. rewrite Hb2' in Hsl3.
-        rewrite Hpm1 in Hsl1. cbn [w_bank set_pm w_pm w_tf_fee] in Hsl1. rewrite Hpma in Hacc. rewrite Htfa in Hacc, Hsl1.
-        subst rsubs. cbn [outP outP1 plain sm_msg sm_reply wants_success camt denom_of amount_of fst snd] in *.
+        unfold slackP in *. unfold w2' in Hsl3. cbn [w_bank set_pm w_pm w_tf_fee] in Hsl3.
+        assert (Hres' : res (pm_with_buffer s1 None) d = res s1 d) by reflexivity. rewrite Hres' in Hsl3.
+        rewrite Hpma in Hacc. rewrite Htfa in Hacc, Hbal1.
+        unfold second_leg in Hsl3. rewrite Hoh, Hea in Hsl3.
+        unfold single_elem.
+        cbn [outP outP1 plain sm_msg sm_reply wants_success camt denom_of amount_of fst snd] in *.
         unfold ind in *. destruct (String.eqb od d), (String.eqb ask d); lia.
     + (* any other contract *)
-      assert (Hrep : forall wr, pinv wr -> forall w2 rsubs, handle_reply wr c (sm_id s) = Ok (w2, rsubs) ->
+      rewrite process_cons in H. inversion Hsmall as [|x xs Hs1 Hsr]; subst.
+      pose proof (Hnb eq_refl) as Hbuf.
+      assert (Hrep : forall wr, pinv wr -> pm_buffer (w_pm wr) = None -> forall w2 rsubs, handle_reply wr c (sm_id s) = Ok (w2, rsubs) ->
                 forall w3 fl3, process f w2 c rsubs = (Ok w3, fl3) ->
-                pinv w3 /\ w_tf_fee w3 = w_tf_fee wr /\ forall d, slackP wr d <= slackP w3 d).
-      { intros wr Hir w2 rsubs Er w3 fl3 Ep. destruct (reply_not_pm _ _ _ _ _ Ec Er) as (-> & Hp2 & Hb2 & Ht2 & Hf2).
+                pinv w3 /\ w_tf_fee w3 = w_tf_fee wr /\ pm_buffer (w_pm w3) = None /\ forall d, slackP wr d <= slackP w3 d).
+      { intros wr Hir Hbr w2 rsubs Er w3 fl3 Ep. destruct (reply_not_pm _ _ _ _ _ Ec Er) as (-> & Hp2 & Hb2 & Ht2 & Hf2).
         destruct f as [|f']; [cbn in Ep; discriminate|]. rewrite process_nil in Ep. inversion Ep; subst w3 fl3.
-        split; [|split; [exact Ht2|]].
+        split; [|split; [exact Ht2|split; [rewrite Hp2; exact Hbr|]]].
         - destruct Hir as [(F1 & F2 & F3) F4]. unfold pinv, fees_small. rewrite Ht2, Hp2, Hf2. split; [split; [exact F1 | split; [exact F2 | exact F3]] | exact F4].
         - intros d. unfold slackP. rewrite Hb2, Hp2. lia. }
-      assert (Hcont : forall w1, pinv w1 -> w_tf_fee w1 = w_tf_fee w -> (forall d, slackP w d <= slackP w1 d) ->
+      assert (Hcont : forall w1, pinv w1 -> w_tf_fee w1 = w_tf_fee w -> pm_buffer (w_pm w1) = None -> (forall d, slackP w d <= slackP w1 d) ->
                 process (S f) w1 c rest = (Ok w', fl) ->
-                pinv w' /\ w_tf_fee w' = w_tf_fee w /\ forall d, slackP w d - 0 <= slackP w' d).
-      { intros w1 Hi1 Ht1 Hs1' Hp.
+                pinv w' /\ w_tf_fee w' = w_tf_fee w /\ pm_buffer (w_pm w') = None /\ forall d, slackP w d - 0 <= slackP w' d).
+      { intros w1 Hi1 Ht1 Hb1 Hs1' Hp.
         assert (Hnl : false = true -> pm_list_ok w1 rest) by (intros C; discriminate).
-        destruct (IHs w1 Hp Hi1 Hsr Hnl) as (Hinv' & Htf' & Hsl').
-        split; [exact Hinv'|]. split; [rewrite Htf'; exact Ht1|]. intros d. specialize (Hsl' d). specialize (Hs1' d). try rewrite Ec in Hsl'. cbv iota in Hsl'. lia. }
+        destruct (IHs w1 Hp Hi1 Hsr Hnl (fun _ => Hb1)) as (Hinv' & Htf' & Hb' & Hsl').
+        split; [exact Hinv'|]. split; [rewrite Htf'; exact Ht1|]. split; [exact Hb'|].
+        intros d. specialize (Hsl' d). specialize (Hs1' d). try rewrite Ec in Hsl'. cbv iota in Hsl'. lia. }
       destruct (exec_sub f w c s) as [[w1|e] fl1] eqn:E.
-      * destruct (exec_sub_step f IHf _ _ _ _ _ E Hinv Hs1) as (Hinv1 & Htf1 & Hsl1).
+      * destruct (exec_sub_step f IHf _ _ _ _ _ E Hinv Hs1 Hbuf) as (Hinv1 & Htf1 & Hb1 & Hsl1).
         assert (Hsl1' : forall d, slackP w d <= slackP w1 d) by (intros d; specialize (Hsl1 d); try rewrite Ec in Hsl1; cbv iota in Hsl1; lia).
         destruct (wants_success (sm_reply s)).
         -- destruct (handle_reply w1 c (sm_id s)) as [[w2 rsubs]|er] eqn:Er; [|discriminate].
            destruct (process f w2 c rsubs) as [[w3|e3] fl3] eqn:Ep; [|discriminate].
-           destruct (Hrep w1 Hinv1 _ _ Er _ _ Ep) as (Hi3 & Ht3 & Hs3).
-           apply (Hcont w3 Hi3); [rewrite Ht3; exact Htf1 | | exact H].
+           destruct (Hrep w1 Hinv1 Hb1 _ _ Er _ _ Ep) as (Hi3 & Ht3 & Hb3 & Hs3).
+           apply (Hcont w3 Hi3); [rewrite Ht3; exact Htf1 | exact Hb3 | | exact H].
            intros d. specialize (Hsl1' d). specialize (Hs3 d). lia.
-        -- apply (Hcont w1 Hinv1 Htf1 Hsl1' H).
+        -- apply (Hcont w1 Hinv1 Htf1 Hb1 Hsl1' H).
       * destruct (wants_error (sm_reply s)); [|discriminate]. cbv zeta in H.
         destruct (handle_reply (set_fault w fl1) c (sm_id s)) as [[w2 rsubs]|er] eqn:Er; [|discriminate].
         destruct (process f w2 c rsubs) as [[w3|e3] fl3] eqn:Ep; [|discriminate].
         assert (Hir : pinv (set_fault w fl1)) by (eapply pinv_same; [apply same_contracts_set_fault | exact Hinv]).
-        destruct (Hrep _ Hir _ _ Er _ _ Ep) as (Hi3 & Ht3 & Hs3).
-        apply (Hcont w3 Hi3); [rewrite Ht3; reflexivity | | exact H].
+        destruct (Hrep _ Hir Hbuf _ _ Er _ _ Ep) as (Hi3 & Ht3 & Hb3 & Hs3).
+        apply (Hcont w3 Hi3); [rewrite Ht3; reflexivity | exact Hb3 | | exact H].
         intros d. specialize (Hs3 d). unfold slackP in *. cbn [w_bank w_pm set_fault] in Hs3. exact Hs3.
 Qed.
 
 (* ---------- every operation of a history ---------- *)
-Definition pool_custody (w : world) : Prop := pinv w /\ backed w.
+Definition pool_custody (w : world) : Prop := pinv w /\ backed w /\ pm_buffer (w_pm w) = None.
 
 Definition op_okP (o : op) : Prop :=
   match o with
@@ -424,9 +504,10 @@ Definition op_okP (o : op) : Prop :=
 Lemma pool_custody_same w w' :
   w_tf_fee w' = w_tf_fee w -> w_pm w' = w_pm w -> w_fm w' = w_fm w -> w_bank w' = w_bank w -> pool_custody w -> pool_custody w'.
 Proof.
-  intros Ht Hp Hf Hb [[(F1 & F2 & F3) F4] Hbk]. split.
+  intros Ht Hp Hf Hb [[(F1 & F2 & F3) F4] [Hbk Hbuf]]. split; [|split].
   - unfold pinv, fees_small. rewrite Ht, Hp, Hf. split; [split; [exact F1 | split; [exact F2 | exact F3]] | exact F4].
   - intros d. unfold slackP. rewrite Hb, Hp. apply Hbk.
+  - rewrite Hp. exact Hbuf.
 Qed.
 
 Lemma step_pool_custody w o : op_okP o -> pool_custody w -> pool_custody (fst (step w o)).
@@ -437,14 +518,14 @@ Proof.
     destruct (run_tx w sender target m funds) as [w'|e] eqn:E; cbn [fst].
     + eapply (pool_custody_same w'); [reflexivity | reflexivity | reflexivity | reflexivity|].
       unfold run_tx in E. destruct (process FUEL w sender [plain (MWasm target m funds)]) as [[w1|e1] fl] eqn:Ep; cbn [fst] in E; [|discriminate].
-      inversion E; subst w1. destruct Hc as [Hi Hbk].
+      inversion E; subst w1. destruct Hc as [Hi [Hbk Hbuf]].
       assert (Hsf : String.eqb sender PM = false) by (apply String.eqb_neq; exact Hsender).
       assert (Hnl : String.eqb sender PM = true -> pm_list_ok w [plain (MWasm target m funds)]) by (intros C; rewrite Hsf in C; discriminate).
-      destruct (process_pool FUEL _ _ _ _ _ Ep Hi (Forall_cons _ Hsm (Forall_nil _)) Hnl) as (Hi' & _ & Hsl).
-      split; [exact Hi'|]. intros d. specialize (Hsl d). rewrite Hsf in Hsl. specialize (Hbk d). lia.
+      destruct (process_pool FUEL _ _ _ _ _ Ep Hi (Forall_cons _ Hsm (Forall_nil _)) Hnl (fun _ => Hbuf)) as (Hi' & _ & Hb' & Hsl).
+      split; [exact Hi'|]. split; [|exact Hb']. intros d. specialize (Hsl d). rewrite Hsf in Hsl. specialize (Hbk d). lia.
     + eapply pool_custody_same; [| | | |exact Hc]; reflexivity.
   - destruct (bank_send (w_bank w) from to amount) as [b'|e] eqn:Eb; cbn [fst]; [|exact Hc].
-    destruct Hc as [Hi Hbk]. split; [eapply pinv_same; [apply same_contracts_set_bank | exact Hi]|].
+    destruct Hc as [Hi [Hbk Hbuf]]. split; [eapply pinv_same; [apply same_contracts_set_bank | exact Hi]|]. split; [|exact Hbuf].
     intros d. specialize (Hbk d). unfold slackP in *. cbn [w_bank w_pm set_bank].
     apply bank_send_spec in Eb. destruct Eb as [Hnn Hb]. rewrite Hb.
     assert (Hf : String.eqb PM from = false) by (apply String.eqb_neq; cbn in Hok; congruence). rewrite Hf.
@@ -454,7 +535,7 @@ Qed.
 
 (* C01: after ANY history of operations by any users (rejected operations, injected faults, single-asset
    provisions, routed swaps, calls between the contracts included) the pool manager's balance covers, per
-   denom, the sum of the reserves of all pools *)
+   denom, the sum of the reserves of all pools — and no single-asset bookkeeping is left behind (C14) *)
 Theorem run_pool_custody ops : forall w, Forall op_okP ops -> pool_custody w -> pool_custody (run w ops).
 Proof.
   induction ops as [|o r IH]; intros w Hok Hc; cbn [run fold_left]; [exact Hc|].
@@ -476,7 +557,7 @@ Proof.
   apply bind_ok in H. destruct H as [fm [_ H]].
   apply bind_ok in H. destruct H as [pm [Hpm H]]. inversion H; subst w; clear H.
   unfold pm_instantiate in Hpm. inv_all.
-  split.
+  split; [|split].
   - split; [|exact Hfm]. unfold fees_small. cbn. split; [exact Hnd | split; [exact Htf | exact Hpf]].
   - intros d. unfold slackP, res. cbn [w_pm w_bank set_pm set_fm set_fc set_em pm_pools ssum].
     assert (G : forall bs b0 b1, foldM (fun b ac => match snd ac with [] => Ok b | _ => bank_mint b (fst ac) (snd ac) end) bs b0 = Ok b1 ->
@@ -487,6 +568,7 @@ Proof.
       apply bank_mint_spec in H2. destruct H2 as [Hnn Hbal]. rewrite Hbal. pose proof (camt_nonneg _ d Hnn). unfold ind.
       destruct (String.eqb PM (fst ac)); lia. }
     unfold init_bank in Hb. specialize (G _ _ _ Hb). cbn in G. lia.
+  - reflexivity.
 Qed.
 
 (* the statement of C01 spelled out: from genesis, through any history *)
@@ -498,8 +580,19 @@ Theorem reachable_backed g w0 ops :
   forall d, ssum (fun p => camt (p_assets p) d) (pm_pools (w_pm (run w0 ops))) <= bal (w_bank (run w0 ops)) PM d.
 Proof.
   intros Hg H1 H2 H3 H4 Hops d.
-  pose proof (run_pool_custody ops w0 Hops (genesis_pool_custody _ _ Hg H1 H2 H3 H4)) as [_ Hb].
+  pose proof (run_pool_custody ops w0 Hops (genesis_pool_custody _ _ Hg H1 H2 H3 H4)) as [_ [Hb _]].
   specialize (Hb d). unfold slackP, res, res_pool in Hb. lia.
+Qed.
+
+(* C14: no single-asset bookkeeping survives any transaction of any history *)
+Theorem reachable_no_buffer g w0 ops :
+  genesis_world g = Ok w0 -> 0 <= amount_of (fm_create_fee (g_fm g)) ->
+  NoDup (map denom_of (g_tf_fee g)) -> (forall f, In f (g_tf_fee g) -> 0 <= amount_of f <= HALF_U128) ->
+  0 <= amount_of (g_pm_fee g) <= HALF_U128 ->
+  Forall op_okP ops -> pm_buffer (w_pm (run w0 ops)) = None.
+Proof.
+  intros Hg H1 H2 H3 H4 Hops.
+  exact (proj2 (proj2 (run_pool_custody ops w0 Hops (genesis_pool_custody _ _ Hg H1 H2 H3 H4)))).
 Qed.
 
 (* non-vacuity: a genesis configuration and a history that meet every hypothesis *)
